@@ -177,12 +177,27 @@ Notation from_field := (from_field E ext_parse).
 Notation from_fields := (from_fields E ext_parse).
 Notation to_items := (to_items E ext_print).
 
-(* THE assumption about the external codecs [ids] under the deb822 reader [ll] (validated by the
-   typed-doc stream on the real functions): a value obtained by parsing a text of the reader's
-   domain prints to canonical text which, as that reader shows it, parses to the same value *)
-Definition ext_stable (ll : bool) (ids : list N) : Prop :=
-  forall i x e, In i ids -> dom ll x -> ext_parse i x = Some e ->
+(* THE law about the external codecs [ids] under the deb822 reader [ll]: a value obtained by
+   parsing a text of the reader's domain (and inside the guard [G] of the codec's known class, if it
+   has one) prints to canonical text which, as that reader shows it, parses to the same value.
+   For url / chrono / debversion / lossy Relations it is a premise (validated by the typed-doc
+   stream on the real functions); for the workspace's own codecs it is proved (TypedExtP.v). *)
+Definition ext_stable_on (G : N -> str -> bool) (ll : bool) (ids : list N) : Prop :=
+  forall i x e, In i ids -> G i x = true -> dom ll x -> ext_parse i x = Some e ->
     canon_value (ext_print i e) = true /\ ext_parse i (rr ll (ext_print i e)) = Some e.
+(* without a guard *)
+Definition ext_stable (ll : bool) (ids : list N) : Prop := ext_stable_on (fun _ _ => true) ll ids.
+Lemma ext_stable_any_guard G ll ids : ext_stable ll ids -> ext_stable_on G ll ids.
+Proof. intros H i x e Hi _. apply H; [exact Hi|reflexivity]. Qed.
+
+(* the guard of the external codecs' known classes, on the values a struct reads through [get] *)
+Definition ext_guard (G : N -> str -> bool) (fs : list fieldspec) (get : str -> option str) : bool :=
+  forallb (fun f => match f_de f with
+                    | DExt i => match get (f_key f) with Some x => G i x | None => true end
+                    | _ => true
+                    end) fs.
+Lemma ext_guard_true fs get : ext_guard (fun _ _ => true) fs get = true.
+Proof. unfold ext_guard. apply forallb_forall. intros f _. destruct (f_de f); try reflexivity. destruct (get (f_key f)); reflexivity. Qed.
 
 Lemma parse_udec_range bits s n : parse_udec bits s = Some n -> (n < 2 ^ bits)%N.
 Proof.
@@ -203,8 +218,8 @@ Lemma canon_bool_words : canon_value s_true = true /\ canon_value s_false = true
   canon_value s_no = true /\ canon_value s_ja = true /\ canon_value s_nee = true.
 Proof. vm_compute. repeat split. Qed.
 
-Theorem stable_field ll ids s d x u :
-  ext_stable ll ids -> (forall i, d = DExt i -> In i ids) -> stable_pair s d = true ->
+Theorem stable_field G ll ids s d x u :
+  ext_stable_on G ll ids -> (forall i, d = DExt i -> In i ids /\ G i x = true) -> stable_pair s d = true ->
   dom ll x -> de d x = Some u ->
   exists y, ser s u = Some y /\ canon_value y = true /\ de d (rr ll y) = Some u.
 Proof.
@@ -238,7 +253,7 @@ Proof.
     injection Hd as <-. exists x. cbn [Derive.ser Derive.de]. change [10%N] with [LF]. rewrite (canon_value_lines _ Hc), Hr. auto.
   - (* SExt DExt *)
     apply N.eqb_eq in Hp. subst id0. destruct (ext_parse id x) as [e|] eqn:Ep; [|discriminate]. injection Hd as <-.
-    destruct (Hext id x e (Hid id eq_refl) Hx Ep) as [C1 C2]. exists (ext_print id e). cbn [Derive.ser Derive.de]. rewrite C2. auto.
+    destruct (Hid id eq_refl) as [Hin HG]. destruct (Hext id x e Hin HG Hx Ep) as [C1 C2]. exists (ext_print id e). cbn [Derive.ser Derive.de]. rewrite C2. auto.
 Qed.
 
 (* the white-space separated list printed one item per line *)
@@ -342,12 +357,12 @@ Qed.
 
 (* THE struct-level statement: a value read through [get] (all of whose values are in the reader's
    domain) is good *)
-Theorem read_value_good ll fs get v :
-  ok_struct_stable fs = true -> ext_stable ll (ext_ids fs) -> hash_guard fs get = true ->
+Theorem read_value_good G ll fs get v :
+  ok_struct_stable fs = true -> ext_stable_on G ll (ext_ids fs) -> ext_guard G fs get = true -> hash_guard fs get = true ->
   (forall k x, get k = Some x -> dom ll x) ->
   from_fields get fs = DOk v -> good ll fs v.
 Proof.
-  intros Hok Hext Hg Hdom Hv. destruct (ok_struct_stable_facts _ Hok) as (Hnd & Hk & Hpairs).
+  intros Hok Hext HG Hg Hdom Hv. unfold ext_guard in HG. rewrite forallb_forall in HG. destruct (ok_struct_stable_facts _ Hok) as (Hnd & Hk & Hpairs).
   apply good_of_fields; [exact Hnd|exact Hk|]. apply from_fields_reads in Hv.
   unfold hash_guard in Hg. rewrite forallb_forall in Hg.
   assert (Haux : forall fs0 v0, (forall f, In f fs0 -> In f fs) -> Forall2 (field_reads_as get) fs0 v0 -> Forall2 (field_good ll) fs0 v0).
@@ -355,7 +370,8 @@ Proof.
     - pose proof (Hin f (or_introl eq_refl)) as Hf. unfold field_reads_as in Hx. unfold field_good.
       destruct (get (f_key f)) as [s|] eqn:Eg.
       + destruct Hx as (u & -> & Hd). destruct (Hpairs f Hf) as [Hp|Hp].
-        * eapply stable_field; [exact Hext| |exact Hp|apply (Hdom _ _ Eg)|exact Hd]. intros i Hi. eapply ext_ids_in; eassumption.
+        * eapply stable_field; [exact Hext| |exact Hp|apply (Hdom _ _ Eg)|exact Hd]. intros i Hi. split; [eapply ext_ids_in; eassumption|].
+          specialize (HG f Hf). rewrite Hi, Eg in HG. exact HG.
         * eapply hash_field; [exact Hp| |exact Hd]. specialize (Hg f Hf). rewrite Hp, Eg in Hg. cbn in Hg. exact Hg.
       + destruct Hx as [-> Ho]. exact Ho.
     - apply IH; [|exact Hr]. intros g Hg'. apply Hin. right. exact Hg'. }
